@@ -28,17 +28,23 @@ ASSUMPTIONS = [
 REQUIRED_CLASSES = ["view-then-op", "empty-row", "unequal-rows", "single-row", "setitem", "concat", "compare-array", "split-join", "negative-index",
                     "empty-selection", "two-dimensional", "fancy-columns-then-ravel", "built-from-encoded-rows",
                     "str-equal-of-two-ragged-arrays", "numpy-array-function-on-flat-array",
-                    "split-on-a-list-of-letters", "join-of-encoded-rows", "results-reach-later-steps-unread"]
-BOUNDS = {"quick": "1500 programs of up to 12 steps for each of 4 encodings, lists of up to 6 strings of length up to 8",
+                    "split-on-a-list-of-letters", "join-of-encoded-rows", "results-reach-later-steps-unread", "alphabet-made-for-the-case"]
+BOUNDS = {"quick": "1500 programs of up to 12 steps for each of 5 encodings (ASCII, ACGT, ACGTN, amino acids, an alphabet made for the case), lists of up to 6 strings of length up to 8",
           "thorough": "12000 programs of up to 30 steps per encoding, lists of up to 12 strings of length up to 20"}
 BUDGET_S = {"quick": 200, "thorough": 1500}
 
 ENCODINGS = {"ascii": "abcXYZ,.;", "ACGT": "ACGT", "ACGTn": "ACGTN", "amino": "ACDEFGHIKLMNPQRSTVWY"}
 
 
+def alphabet_of(name):
+    return name[len("custom:"):] if name.startswith("custom:") else ENCODINGS[name]
+
+
 def get_enc(name):
     import bionumpy as bnp
-    from bionumpy.encodings.alphabet_encoding import ACGTEncoding, ACGTnEncoding, AminoAcidEncoding
+    from bionumpy.encodings.alphabet_encoding import ACGTEncoding, ACGTnEncoding, AminoAcidEncoding, AlphabetEncoding
+    if name.startswith("custom:"):
+        return AlphabetEncoding(name[len("custom:"):])         # an alphabet made for this case and dropped with it
     return {"ascii": bnp.encodings.BaseEncoding, "ACGT": ACGTEncoding, "ACGTn": ACGTnEncoding, "amino": AminoAcidEncoding}[name]
 
 
@@ -85,12 +91,23 @@ def run(case, stats=None):
     import bionumpy as bnp
     from bionumpy.encoded_array import EncodedArray, EncodedRaggedArray
     from bionumpy.io import strops
+    failures = []
+    # alphabets over the same letters that were made, used for a comparison with a letter and dropped before this case's own was made
+    for other_alphabet in case.get("prior_alphabets", ()):
+        prior = get_enc("custom:" + other_alphabet)
+        text = other_alphabet * 2
+        flat = bnp.as_encoded_array(text, prior)
+        for c in other_alphabet:
+            got = np.asarray(flat == c).tolist()
+            if got != [ch == c for ch in text]:
+                failures.append(Failure("C07:result-differs:f_eq_char", {"alphabet": other_alphabet, "text": text, "letter": c,
+                                                                          "expected": [ch == c for ch in text], "actual": got, "prior": True}))
+        del prior, flat
     enc = get_enc(case["enc"])
-    alphabet = ENCODINGS[case["enc"]]
+    alphabet = alphabet_of(case["enc"])
     reals = [bnp.as_encoded_array(list(case["init"]), enc)]
     models = [list(case["init"])]
     kinds = ["ragged"]
-    failures = []
 
     def push(real, model, op, check_encoding=True, keep=True, kind=None):
         if keep:
@@ -442,6 +459,10 @@ def classify(case):
         cl.append("empty-selection")
     if "from_rows" in names:
         cl.append("built-from-encoded-rows")
+    if case["enc"].startswith("custom:"):
+        cl.append("alphabet-made-for-the-case")
+    if case.get("prior_alphabets"):
+        cl.append("other-alphabets-made-and-dropped-first")
     if case.get("untouched_results") and len(prog) >= 2:
         cl.append("results-reach-later-steps-unread")
     if case["enc"] != "ascii" and any(op["op"] == "join" and op.get("sep_k") is not None for op in prog):
@@ -534,7 +555,11 @@ def op_strategy(with_matrix=False):
 
 @st.composite
 def c07_case(draw, enc, max_rows, max_len, max_steps):
-    alphabet = ENCODINGS[enc]
+    priors = []
+    if enc == "custom":
+        enc = "custom:" + "".join(draw(st.permutations(list("ACGTXYVBS")))[:draw(st.integers(3, 6))])
+        priors = ["".join(draw(st.permutations(list(alphabet_of(enc))))) for _ in range(draw(st.integers(0, 3)))]
+    alphabet = alphabet_of(enc)
     n = draw(st.one_of(st.integers(0, max_rows), st.integers(1, max_rows), st.just(1)))
     rows = [draw(st.one_of(st.just(""), st.text(alphabet=alphabet, min_size=0, max_size=max_len), st.text(alphabet=alphabet, min_size=1, max_size=3)))
             for _ in range(n)]
@@ -544,8 +569,9 @@ def c07_case(draw, enc, max_rows, max_len, max_steps):
         extra = draw(st.integers(2, max(2, max_len)))
         rows = [(r * extra)[:extra] if draw(st.booleans()) else r for r in rows]
         return {"enc": enc, "init": rows, "matrix": True, "program": draw(st.lists(op_strategy(True), min_size=1, max_size=max_steps)),
-                "untouched_results": draw(st.booleans())}
-    return {"enc": enc, "init": rows, "program": draw(st.lists(op_strategy(), min_size=1, max_size=max_steps)), "untouched_results": draw(st.booleans())}
+                "untouched_results": draw(st.booleans()), **({"prior_alphabets": priors} if priors else {})}
+    return {"enc": enc, "init": rows, "program": draw(st.lists(op_strategy(), min_size=1, max_size=max_steps)), "untouched_results": draw(st.booleans()),
+            **({"prior_alphabets": priors} if priors else {})}
 
 
 def task_enc(stats, known_open, enc, n, seed, max_rows, max_len, max_steps):
@@ -556,7 +582,7 @@ def task_enc(stats, known_open, enc, n, seed, max_rows, max_len, max_steps):
 def tasks(tier, seed):
     n, mr, ml, ms, reps = (1500, 6, 8, 12, 1) if tier == "quick" else (3000, 12, 20, 30, 4)
     out = []
-    for i, enc in enumerate(ENCODINGS):
+    for i, enc in enumerate(list(ENCODINGS) + ["custom"]):
         for j in range(reps):
             out.append(("task_enc", dict(enc=enc, n=n, seed=seed * 1000 + i * 10 + j, max_rows=mr, max_len=ml, max_steps=ms)))
     return out
